@@ -493,6 +493,9 @@ func (x *Exec) litUnit(u *Unit) {
 }
 
 func (x *Exec) runBody(u *Unit, st *State, sig *types.Signature, body *ast.BlockStmt, entry map[string]Term, self Term, impl *implCtx) {
+	if body != nil {
+		x.collectLocalAssigns(body)
+	}
 	pc := u.Proc
 	ghosts := map[string]Term{}
 	mk := x.makeEnv(sig, "", self, entry, ghosts, nil, impl)
@@ -784,6 +787,7 @@ func (x *Exec) subtypeUnit(u *Unit) {
 		body = decl.Body
 		x.number(decl.Body)
 		x.scanLiterals(decl.Body)
+		x.collectLocalAssigns(decl.Body)
 		msig := mobj.Origin().Type().(*types.Signature)
 		if r := msig.Recv(); r != nil && r.Name() != "" && r.Name() != "_" {
 			var rv Term
